@@ -110,6 +110,22 @@ CLAIMS = {
         technique="TLA+ spec (Kinematics.tla over Topology) model-checked by TLC; variable lists compared exactly, round trips sampled (B3)",
         engine="tlc-table",
     ),
+    "C10": dict(
+        category="exploration",
+        text="spec/Sampler.tla and spec/PhspLattice.tla: TLC checks the refill loop of PhaseSpaceGenerator.generate and the nesting of ChainGenerator for every acceptance pattern (result length = N, a request is never empty, accepted refills make progress) and, on an integer mass lattice, that every factor of the unweighting weight is bounded by the matching factor of m_wtMax and that the importance factor lies in [0,1] (weight <= 1). The real generators are run on a seeded selection of TLC's scenario table (n = 2..6, massless/light/heavy daughters, three Q classes, every ordered nesting up to 5 leaves, decimal and dyadic masses) for N in {1, 7, 1000, 1e5}: exact counts, on-shell / momentum-sum / fixed-node-mass residuals <= 1e-9 m0, get_weight <= 1 and exact weight ratios on lattice chains, flatness by chi^2 against an independent quadrature of the recursive phase-space density; every generate() call is traced and validated by the trace specification (B2).",
+        design_ref="DESIGN.md 5/C10; notes/C10.md",
+        note="Continuous quantifier (masses, events) sampled; flatness statistical at alpha = 1e-12 per test; the phase-space oracle (harness/phsp_c10.py, numpy quadrature) is trusted after a self-test against an independent weighted generator. One known finding (cal_max_weight can shrink the weight bound below the true maximum).",
+        technique="TLC loop model + exact mass-lattice weight table + TLC trace validation of recorded batches (B2) + numeric/statistical oracle (B3)",
+        engine="tlc-scenario",
+    ),
+    "C20": dict(
+        category="model_checking",
+        text="The accept-reject samplers (multi_sampling/single_sampling2, interp_sample_f) are modelled in spec/Sampler.tla as a step machine over integer weights, rational random numbers and exact rational bounds; TLC checks on every state that each alive event carries an effective bound >= its weight, that N_gen bookkeeping is consistent and that the result is the first N events. Every trace recorded from the real functions (instrumented phsp/amp/f callables, controlled random numbers on k/16, or decision witnesses with the real generator) must be accepted by spec/TraceSampler.tla; corrupted traces are shown to be rejected. LinearInterp is held to TLC's exact (grid, x, u) pairs (spec/CdfInvert.tla) at 1e-9, AdaptiveBound and Hist1D to the postconditions TLC proves on enumerated integer data sets (spec/Bins.tla). That the accepted sample follows the density is tested statistically (exact binomial tests of weight-class fractions, chi^2 of a real model's Dalitz plot) - this distributional part is exploration.",
+        design_ref="DESIGN.md 5/C20; notes/C20.md",
+        note="Trusted: TLC; controlled random numbers injected through the instrumented callables; statistical tests at a fixed per-check false-alarm probability <= 1e-9; BWGenerator / InterpND checked by deterministic stratified inversion of their own CDF.",
+        technique="TLC step machine + TLC trace validation of recorded sampler runs (B2) + exact tables (B3) + fixed-alpha statistical tests",
+        engine="tlc-replay",
+    ),
 }
 
 NOT_YET = "check not built yet in this round (planned in DESIGN.md 5); not claimed until its specification is bound to the code"
